@@ -313,12 +313,20 @@ theorem foldl_max_replicate (m n a : Nat) : (List.replicate m n).foldl max a ≤
     have := ih (max a n)
     omega
 
+theorem filter_id_replicate_true (m : Nat) : ((List.replicate m true).filter id).length = m := by
+  induction m with
+  | zero => simp
+  | succ m ih => simp [List.replicate_succ, ih]
+
+theorem all_id_replicate_true (m : Nat) : (List.replicate m true).all id = true := by
+  simp
+
 theorem perm_preRemoved_all_aux (m n : Nat) (h : n < m) (i : Nat) (hi : i < m) :
-    (i, List.range n) ∈ preRemoved .permutation (List.replicate m n) false := by
+    (i, List.range n) ∈ preRemoved .permutation (List.replicate m n) true := by
   have hmax : (List.replicate m n).foldl max 0 < m := by
     have := foldl_max_replicate m n 0; omega
-  simp only [preRemoved, List.length_replicate, hmax, decide_true, BEq.rfl, Bool.and_self, if_true,
-    List.mem_map, List.mem_range]
+  simp only [preRemoved, preRemovedP, List.length_replicate, filter_id_replicate_true, hmax, decide_true, BEq.rfl,
+    Bool.and_self, if_true, List.mem_map, List.mem_range]
   exact ⟨i, hi, by rw [getD_replicate' m n i hi]⟩
 
 theorem preRemoved_norepl_mem (m n i : Nat) (hi : i < m) (r : List Nat) :
@@ -326,8 +334,8 @@ theorem preRemoved_norepl_mem (m n i : Nat) (hi : i < m) (r : List Nat) :
       r = (List.range n).filter (fun j => decide (j < i) ||
         decide ((n : Int) - ((m : Int) - ((i : Int) + 1)) ≤ (j : Int))) := by
   have h1 : (ConsType.unorderedNorepl == ConsType.permutation) = false := by decide
-  simp only [preRemoved, List.length_replicate, h1, Bool.false_and, Bool.false_eq_true, if_false,
-    BEq.rfl, Bool.and_self, if_true, List.mem_map, List.mem_range, Prod.mk.injEq]
+  simp only [preRemoved, preRemovedP, List.length_replicate, h1, Bool.false_and, Bool.false_eq_true, if_false,
+    BEq.rfl, all_id_replicate_true, Bool.and_self, if_true, List.mem_map, List.mem_range, Prod.mk.injEq]
   constructor
   · rintro ⟨a, ha, rfl, rfl⟩
     rw [getD_replicate' m n a ha]
